@@ -223,7 +223,7 @@ fn run_property(ctx: &Ctx, prop: &str) {
                 let c = streams::Case { s: gen::StreamCase { bytes: corpus[i as usize].0.clone(), label: corpus[i as usize].1.clone(), plain: None }, source: streams::Source::Own };
                 streams::c03_case(&c, i)
             }));
-            let n = ctx.n(1200, 15000);
+            let n = ctx.n(2500, 15000);
             merge(&mut s, run_cases(ctx, n, |i| {
                 let c = streams::case(seed, i, 70000, false);
                 streams::c03_case(&c, i)
